@@ -77,6 +77,12 @@ static void st(const G2Affine& a) {
 
 static void poison(void* p, size_t n) { memset(p, 0xA5, n); }
 
+// Byte buffers handed to the library (hash inputs, encodings, big-endian field images) carry no alignment guarantee: place them at a
+// rotating offset 0..7 so that code reading them as wider words is seen by UBSan (alignment) on every alignment class.
+static size_t g_bshift = 0;
+#define BYTEBUF(name, n) uint8_t name##_raw[(n) + 8]; uint8_t* name = name##_raw + g_bshift
+static uint8_t* heapbuf(size_t n, uint8_t** raw) { *raw = (uint8_t*) malloc(n + g_bshift); return *raw + g_bshift; }   // still ends flush with the block
+
 // ---------------------------------------------------------------- prime fields
 template <typename F, int bits>
 static bool field_ops(const char* op) {
@@ -112,8 +118,8 @@ static bool fq_only(const char* op) {
     Fq a, b, o;
     poison(&o, sizeof o);
     OP("cmp") { ld(1, a); ld(2, b); puti(Fq::compare(a, b)); return true; }
-    OP("rd") { uint8_t buf[48]; unhex(arg(1), buf, 48); o.read_big_endian(buf); st(o); return true; }
-    OP("wr") { uint8_t buf[48]; ld(1, a); a.write_big_endian(buf); put(buf, 48); return true; }
+    OP("rd") { BYTEBUF(buf, 48); unhex(arg(1), buf, 48); o.read_big_endian(buf); st(o); return true; }
+    OP("wr") { BYTEBUF(buf, 48); ld(1, a); a.write_big_endian(buf); put(buf, 48); return true; }
     OP("negone") { st(Fq::negative_one); return true; }
     return false;
 }
@@ -136,8 +142,8 @@ static bool ext_common(const char* op) {
     OP("copy") { ld(1, a); o.copy(a); st(o); return true; }
     OP("exp") { BigInt<256> e; ld(1, a); ldB(2, e); embedded_pairing::core::exponentiate(o, a, e); st(o); return true; }
     OP("exp384") { BigInt<384> e; ld(1, a); ldB(2, e); embedded_pairing::core::exponentiate(o, a, e); st(o); return true; }
-    OP("rd") { uint8_t buf[sizeof(T)]; unhex(arg(1), buf, sizeof(T)); o.read_big_endian(buf); st(o); return true; }
-    OP("wr") { uint8_t buf[sizeof(T)]; ld(1, a); a.write_big_endian(buf); put(buf, sizeof(T)); return true; }
+    OP("rd") { BYTEBUF(buf, sizeof(T)); unhex(arg(1), buf, sizeof(T)); o.read_big_endian(buf); st(o); return true; }
+    OP("wr") { BYTEBUF(buf, sizeof(T)); ld(1, a); a.write_big_endian(buf); put(buf, sizeof(T)); return true; }
     OP("random") { rng_script(arg(1)); o.random(rng_cb); st(o); put_rng_log(); return true; }
     OP("const") { st(T::zero); st(T::one); return true; }
     return false;
@@ -215,8 +221,8 @@ static bool gt_ops(const char* op) {
         for (int i = 0; i < 4; i++) ldB(2 + i, s.c[i]);
         o.exponentiate_gt(a, s); st(o); return true;
     }
-    OP("marshal") { uint8_t buf[576]; ld(1, a); embedded_pairing_bls12_381_gt_marshal(buf, ca); put(buf, 576); return true; }
-    OP("unmarshal") { uint8_t buf[576]; unhex(arg(1), buf, 576); embedded_pairing_bls12_381_gt_unmarshal(co, buf); st(o); return true; }
+    OP("marshal") { BYTEBUF(buf, 576); ld(1, a); embedded_pairing_bls12_381_gt_marshal(buf, ca); put(buf, 576); return true; }
+    OP("unmarshal") { BYTEBUF(buf, 576); unhex(arg(1), buf, 576); embedded_pairing_bls12_381_gt_unmarshal(co, buf); st(o); return true; }
     OP("const") {
         st(*(const Fq12*) embedded_pairing_bls12_381_gt_generator); st(*(const Fq12*) embedded_pairing_bls12_381_gt_zero);
         st(generator_pairing); return true;
@@ -336,7 +342,7 @@ static bool curve_ops(const char* op, bool is_g1) {
         o.multiply_wnaf(a, s); st(o); return true;
     }
     OP("random") { rng_script(arg(1)); o.random_generator(rng_cb); st(o); put_rng_log(); return true; }
-    OP("fromhash") { uint8_t h[sizeof(typename GA::BaseFieldType)]; unhex(arg(1), h, sizeof h); po.from_hash(h); st(po); return true; }
+    OP("fromhash") { BYTEBUF(h, sizeof(typename GA::BaseFieldType)); unhex(arg(1), h, sizeof(typename GA::BaseFieldType)); po.from_hash(h); st(po); return true; }
     OP("fromx") {
         typename GA::BaseFieldType x; ld(1, x);
         bool ok = po.get_point_from_x(x, argi(2) != 0, argi(3) != 0);
@@ -393,7 +399,7 @@ static bool capi_ops(const char* op) {
     OP("g1affine_negate") { ld(1, pa1); embedded_pairing_bls12_381_g1affine_negate(CG1A(&po1), CG1A(&pa1)); st(po1); return true; }
     OP("g1affine_equal") { ld(1, pa1); ld(2, pb1); puti(embedded_pairing_bls12_381_g1affine_equal(CG1A(&pa1), CG1A(&pb1))); return true; }
     OP("g1_random") { rng_script(arg(1)); embedded_pairing_bls12_381_g1_random(CG1(&o1), rng_cb); st(o1); put_rng_log(); return true; }
-    OP("g1affine_from_hash") { uint8_t h[48]; unhex(arg(1), h, 48); embedded_pairing_bls12_381_g1affine_from_hash(CG1A(&po1), h); st(po1); return true; }
+    OP("g1affine_from_hash") { BYTEBUF(h, 48); unhex(arg(1), h, 48); embedded_pairing_bls12_381_g1affine_from_hash(CG1A(&po1), h); st(po1); return true; }
 
     OP("g2_add") { ld(1, a2); ld(2, b2); embedded_pairing_bls12_381_g2_add(CG2(&o2), CG2(&a2), CG2(&b2)); st(o2); return true; }
     OP("g2_add_mixed") { ld(1, a2); ld(2, pb2); embedded_pairing_bls12_381_g2_add_mixed(CG2(&o2), CG2(&a2), CG2A(&pb2)); st(o2); return true; }
@@ -407,9 +413,9 @@ static bool capi_ops(const char* op) {
     OP("g2affine_negate") { ld(1, pa2); embedded_pairing_bls12_381_g2affine_negate(CG2A(&po2), CG2A(&pa2)); st(po2); return true; }
     OP("g2affine_equal") { ld(1, pa2); ld(2, pb2); puti(embedded_pairing_bls12_381_g2affine_equal(CG2A(&pa2), CG2A(&pb2))); return true; }
     OP("g2_random") { rng_script(arg(1)); embedded_pairing_bls12_381_g2_random(CG2(&o2), rng_cb); st(o2); put_rng_log(); return true; }
-    OP("g2affine_from_hash") { uint8_t h[96]; unhex(arg(1), h, 96); embedded_pairing_bls12_381_g2affine_from_hash(CG2A(&po2), h); st(po2); return true; }
+    OP("g2affine_from_hash") { BYTEBUF(h, 96); unhex(arg(1), h, 96); embedded_pairing_bls12_381_g2affine_from_hash(CG2A(&po2), h); st(po2); return true; }
 
-    OP("zp_from_hash") { uint8_t h[32]; unhex(arg(1), h, 32); poison(&k, sizeof k); embedded_pairing_bls12_381_zp_from_hash(CK(&k), h); stB(k); return true; }
+    OP("zp_from_hash") { BYTEBUF(h, 32); unhex(arg(1), h, 32); poison(&k, sizeof k); embedded_pairing_bls12_381_zp_from_hash(CK(&k), h); stB(k); return true; }
     OP("zp_random") { rng_script(arg(1)); poison(&k, sizeof k); embedded_pairing_bls12_381_zp_random(CK(&k), rng_cb); stB(k); put_rng_log(); return true; }
     OP("scalar_hash_reduce") { ldB(1, k); embedded_pairing_wkdibe_scalar_hash_reduce(CK(&k)); stB(k); return true; }
     OP("random_zpstar") { rng_script(arg(1)); poison(&k, sizeof k); embedded_pairing_wkdibe_random_zpstar(CK(&k), rng_cb); stB(k); put_rng_log(); return true; }
@@ -426,14 +432,14 @@ static bool capi_ops(const char* op) {
     // encodings: marshal <compressed> point ; unmarshal <compressed> <checked> bytes
     OP("g1_marshal") {
         int c = (int) argi(1); ld(2, pa1);
-        uint8_t buf[96 + 16]; memset(buf, 0xee, sizeof buf);
+        BYTEBUF(buf, 96 + 16); memset(buf, 0xee, 96 + 16);
         embedded_pairing_bls12_381_g1_marshal(buf, CG1A(&pa1), c != 0);
         size_t n = c ? 48 : 96;
         put(buf, n); puti(buf[n] == 0xee && buf[n + 15] == 0xee); return true;
     }
     OP("g2_marshal") {
         int c = (int) argi(1); ld(2, pa2);
-        uint8_t buf[192 + 16]; memset(buf, 0xee, sizeof buf);
+        BYTEBUF(buf, 192 + 16); memset(buf, 0xee, 192 + 16);
         embedded_pairing_bls12_381_g2_marshal(buf, CG2A(&pa2), c != 0);
         size_t n = c ? 96 : 192;
         put(buf, n); puti(buf[n] == 0xee && buf[n + 15] == 0xee); return true;
@@ -441,19 +447,19 @@ static bool capi_ops(const char* op) {
     OP("g1_unmarshal") {
         int c = (int) argi(1), chk = (int) argi(2);
         size_t n = c ? 48 : 96;
-        uint8_t* buf = (uint8_t*) malloc(n); unhex(arg(3), buf, n);   // exact-size heap buffer: over-reads are ASan-visible
+        uint8_t* buf_raw; uint8_t* buf = heapbuf(n, &buf_raw); unhex(arg(3), buf, n);   // exact-size heap buffer: over-reads are ASan-visible
         memset(&po1, 0, sizeof po1);
         bool ok = embedded_pairing_bls12_381_g1_unmarshal(CG1A(&po1), buf, c != 0, chk != 0);
-        free(buf);
+        free(buf_raw);
         puti(ok); if (ok) st(po1); return true;
     }
     OP("g2_unmarshal") {
         int c = (int) argi(1), chk = (int) argi(2);
         size_t n = c ? 96 : 192;
-        uint8_t* buf = (uint8_t*) malloc(n); unhex(arg(3), buf, n);
+        uint8_t* buf_raw; uint8_t* buf = heapbuf(n, &buf_raw); unhex(arg(3), buf, n);
         memset(&po2, 0, sizeof po2);
         bool ok = embedded_pairing_bls12_381_g2_unmarshal(CG2A(&po2), buf, c != 0, chk != 0);
-        free(buf);
+        free(buf_raw);
         puti(ok); if (ok) st(po2); return true;
     }
 
@@ -461,11 +467,11 @@ static bool capi_ops(const char* op) {
     OP("g1_decenc") {
         int c = (int) argi(1);
         size_t n = c ? 48 : 96;
-        uint8_t* buf = (uint8_t*) malloc(n); unhex(arg(2), buf, n);
+        uint8_t* buf_raw; uint8_t* buf = heapbuf(n, &buf_raw); unhex(arg(2), buf, n);
         memset(&po1, 0, sizeof po1); memset(&pb1, 0, sizeof pb1);
         bool okc = embedded_pairing_bls12_381_g1_unmarshal(CG1A(&po1), buf, c != 0, true);
         bool oku = embedded_pairing_bls12_381_g1_unmarshal(CG1A(&pb1), buf, c != 0, false);
-        free(buf);
+        free(buf_raw);
         puti(okc);
         if (okc) { uint8_t* re = (uint8_t*) malloc(n); embedded_pairing_bls12_381_g1_marshal(re, CG1A(&po1), c != 0); st(po1); put(re, n); free(re); }
         puti(oku);
@@ -475,11 +481,11 @@ static bool capi_ops(const char* op) {
     OP("g2_decenc") {
         int c = (int) argi(1);
         size_t n = c ? 96 : 192;
-        uint8_t* buf = (uint8_t*) malloc(n); unhex(arg(2), buf, n);
+        uint8_t* buf_raw; uint8_t* buf = heapbuf(n, &buf_raw); unhex(arg(2), buf, n);
         memset(&po2, 0, sizeof po2); memset(&pb2, 0, sizeof pb2);
         bool okc = embedded_pairing_bls12_381_g2_unmarshal(CG2A(&po2), buf, c != 0, true);
         bool oku = embedded_pairing_bls12_381_g2_unmarshal(CG2A(&pb2), buf, c != 0, false);
-        free(buf);
+        free(buf_raw);
         puti(okc);
         if (okc) { uint8_t* re = (uint8_t*) malloc(n); embedded_pairing_bls12_381_g2_marshal(re, CG2A(&po2), c != 0); st(po2); put(re, n); free(re); }
         puti(oku);
@@ -678,11 +684,13 @@ int main(int argc, char** argv) {
     }
     static char outbuf[1 << 16];
     setvbuf(stdout, outbuf, _IOFBF, sizeof outbuf);
+    verif_install_death_flush();
     while (read_line(stdin)) {
         if (g_ntok == 0) { printf("\n"); continue; }
         const char* op = g_tok[0];
         const char* s;
         bool ok = false;
+        g_bshift = (g_bshift + 3) & 7;
         printf("%s", op);
         if ((s = after(op, "Fq."))) ok = field_ops<Fq, 384>(s) || fq_only(s);
         else if ((s = after(op, "Fr."))) ok = field_ops<Fr, 256>(s);
